@@ -207,6 +207,8 @@ def def_decide(ctx):
             for cb_, cit, cs in callers:
                 cases.append((cb_, cit, cs, body, it, keypar))
         for body, it, sites, abody, ait, keypar in cases:
+            key_sites = list(sites)
+            sites = _lift_loop_sites(facts, body, it, sites)
             found = []
             evr = Evaluator(facts, classify=defer_classifier(found, r['clock']))
             Reach(facts, body, evr)
@@ -225,7 +227,7 @@ def def_decide(ctx):
                    'must': must}
             # key stored = the compared clock
             keyed = False
-            for bb in sites:
+            for bb in key_sites:
                 c = it.calls[bb]
                 if keypar is not None:
                     # the helper files the remove under its parameter `keypar`: that argument must be the compared clock
@@ -268,6 +270,8 @@ def def_decide(ctx):
                 if n in ('extend', 'append', 'insert', 'union', 'extend_from_slice') and ev and param_path(ev[0]) == (1, (r['deferred'],)):
                     unions.append(bb2)
 
+            unions = _lift_loop_sites(facts, abody, ait, unions)
+
             def present_atom(t):
                 if t[0] == 'discr' and is_call(t[1], ('get', 'get_mut')) and len(t[1][2]) == 2 and param_path(t[1][2][0]) == (1, (r['deferred'],)):
                     return ('map', 'present', {True: 1, False: 0})
@@ -292,6 +296,34 @@ def def_decide(ctx):
             ctx.check(not aerrs, name + '/accumulate', abody, 'pending elements under the same clock are accumulated, never replaced',
                       aerrs[0] if aerrs else '', details={'present -> (insert may, union must, any must)': {str(k): v for k, v in acc.items()}},
                       props=['C08', 'C09', 'C20', 'C02', 'C03', EL[inst]])
+
+
+def _lift_loop_sites(facts, body, it, sites):
+    """A site that adds ONE incoming element per iteration of a complete loop over the incoming elements
+    (`for m in members { existing.insert(m) }` instead of `existing.extend(members)`) stands for the whole loop: whether it is
+    passed is asked of the loop head (an empty batch adds nothing in either spelling)."""
+    from .loops import loops_of, item_derived
+    out = []
+    lps = None
+    for bb in sites:
+        if lps is None:
+            lps = loops_of(it)
+            rc0 = Reach(facts, body, Evaluator(facts))
+        best = None
+        for lp in lps:
+            if bb in lp.blocks and (best is None or len(lp.blocks) < len(best.blocks)):
+                best = lp
+        c = it.calls.get(bb)
+        if best is not None and c is not None and not best.early_exits() and best.must(rc0, [bb]) \
+                and any(item_derived(a.val, best) for a in c.args[1:]):
+            base = iter_source(best.src)[0]
+            pp = param_path(base)
+            partial = set(iter_adaptors(best.src)) & {'skip', 'take', 'step_by', 'skip_while', 'take_while', 'filter', 'filter_map'}
+            if not (pp and pp[0] == 1) and not partial:          # the loop ranges over ALL of something handed in, not over self
+                out.append(best.head)
+                continue
+        out.append(bb)
+    return sorted(set(out))
 
 
 def _rm_elem_sites(facts, it, r, sub=()):
